@@ -73,9 +73,9 @@ def _numeral(t):
 def expand_concrete(t, cache, positive=True, span=4):
     k = (t.get_id(), positive)
     if k in cache:
-        return cache[k]
+        return cache[k][1]
     r = _expand(t, cache, positive, span)
-    cache[k] = r
+    cache[k] = (t, r)          # keeping `t` alive keeps its id from being reused by another term
     return r
 
 
@@ -90,11 +90,12 @@ def _expand(t, cache, positive, span):
         if t.is_lambda():
             return t
         n = t.num_vars()
-        if any(t.var_sort(i) != z3.IntSort() for i in range(n)) or n > 3:
-            return z3.BoolVal(True) if (t.is_forall() == positive) else z3.BoolVal(True)
+        if any(t.var_sort(i) != z3.IntSort() for i in range(n)) or n > 4:
+            return z3.BoolVal(True)
         import itertools
         insts = []
-        for tup in itertools.product(range(-1, span + 1), repeat=n):
+        dom = range(-1, span + 1) if n <= 2 else range(0, span)
+        for tup in itertools.product(dom, repeat=n):
             b = z3.substitute_vars(t.body(), *reversed([z3.IntVal(x) for x in tup]))
             insts.append(expand_concrete(z3.simplify(b), cache, positive, span))
         return z3.And(*insts) if t.is_forall() else z3.Or(*insts)
@@ -112,6 +113,11 @@ def _expand(t, cache, positive, span):
             return z3.Sum(terms) if terms else z3.RealVal(0)
         return t
     kind = d.kind()
+    if kind == z3.Z3_OP_SELECT:
+        arr = t.arg(0)
+        idx = [expand_concrete(t.arg(i), cache, positive, span) for i in range(1, t.num_args())]
+        # push the select through ite / store spines down to lambdas (beta-reduce) or constants
+        return _select_concrete(arr, idx, cache, positive, span)
     if kind == z3.Z3_OP_NOT:
         return z3.Not(expand_concrete(t.arg(0), cache, not positive, span))
     if kind == z3.Z3_OP_IMPLIES:
@@ -124,6 +130,30 @@ def _expand(t, cache, positive, span):
         return d(*args)
     except Exception:      # noqa
         return t
+
+
+def _select_concrete(arr, idx, cache, positive, span):
+    if z3.is_quantifier(arr) and arr.is_lambda():
+        body = z3.substitute_vars(arr.body(), *reversed(idx))
+        return expand_concrete(z3.simplify(body), cache, positive, span)
+    if z3.is_app(arr):
+        k = arr.decl().kind()
+        if k == z3.Z3_OP_STORE:
+            n = arr.num_args()
+            sidx = [expand_concrete(arr.arg(i), cache, positive, span) for i in range(1, n - 1)]
+            val = expand_concrete(arr.arg(n - 1), cache, positive, span)
+            same = z3.simplify(z3.And(*[a == b for a, b in zip(idx, sidx)]))
+            rest = _select_concrete(arr.arg(0), idx, cache, positive, span)
+            if z3.is_true(same):
+                return val
+            if z3.is_false(same):
+                return rest
+            return z3.If(same, val, rest)
+        if k == z3.Z3_OP_ITE:
+            c = expand_concrete(arr.arg(0), cache, positive, span)
+            return z3.If(c, _select_concrete(arr.arg(1), idx, cache, positive, span),
+                         _select_concrete(arr.arg(2), idx, cache, positive, span))
+    return z3.Select(arr, *idx)
 
 
 def concretised_candidate(ob, leaves, sizes, timeout_ms=8000):
@@ -262,8 +292,9 @@ def cvc5_check(smt2, timeout_s=20):
 
 
 def extract_model(m, leaves):
-    """concrete values of the named input symbols (ints, reals, bools, strings; small arrays cell by cell)"""
-    from .values import SymArr, SymList, Obj, Cx
+    """concrete values of the named input symbols (ints, reals, bools, strings; small arrays cell by cell);
+    the entry `__args__` (pre-state snapshot of the arguments) is converted structurally for the generic replay"""
+    from .values import SymArr, SymList, Obj, Cx, Range
     out = {}
 
     def val(t):
@@ -292,36 +323,66 @@ def extract_model(m, leaves):
             out_.append(x)
         return out_
 
-    def conv(name, leaf, depth=0):
+    def conv(leaf, depth=0, tree=False):
         if isinstance(leaf, z3.ExprRef):
             return val(leaf)
         if isinstance(leaf, Cx):
-            return {"re": conv(name, leaf.re), "im": conv(name, leaf.im)}
+            return {"re": conv(leaf.re), "im": conv(leaf.im)}
         if isinstance(leaf, SymArr):
             shp = shape_vals(leaf.shape)
-            if shp is None or any(n > 6 or n < 0 for n in shp):
-                return {"shape": shp, "cells": None}
+            if shp is None or any(n > 6 or n < 0 for n in shp) or len(shp) > 4:
+                return {"__array__": 1, "shape": shp, "dtype": leaf.dtype, "cells": None}
             import itertools
             cells = {}
             for idx in itertools.product(*[range(n) for n in shp]):
                 c = leaf.get(list(idx))
-                cells[",".join(map(str, idx))] = conv(name, c)
-            return {"shape": shp, "dtype": leaf.dtype, "cells": cells}
+                cells[",".join(map(str, idx))] = conv(c)
+            return {"__array__": 1, "shape": shp, "dtype": leaf.dtype, "cells": cells}
         if isinstance(leaf, SymList):
             n = val(leaf.length) if z3.is_expr(leaf.length) else leaf.length
             if not isinstance(n, int) or n > 8 or n < 0:
-                return {"length": n, "items": None}
-            return {"length": n, "items": [[val(z3.Select(c, k)) for c in leaf.comps] for k in range(n)]}
-        if isinstance(leaf, Obj) and depth < 3:
-            return {f: conv(f, x, depth + 1) for f, x in leaf.fields.items()
-                    if isinstance(x, (z3.ExprRef, Cx, SymArr, SymList, int, float, str, bool)) or x is None}
-        if isinstance(leaf, (int, str, bool)) or leaf is None:
+                return {"__symlist__": 1, "width": leaf.width, "length": n, "items": None}
+            return {"__symlist__": 1, "width": leaf.width, "length": n,
+                    "items": [[val(z3.Select(c, k)) for c in leaf.comps] for k in range(n)]}
+        if isinstance(leaf, Obj):
+            if depth > 4:
+                return None
+            cls = getattr(leaf.cls, "qualname", None) or str(leaf.cls)
+            fields = {}
+            for f, x in leaf.fields.items():
+                try:
+                    fields[f] = conv(x, depth + 1, tree)
+                except Exception:      # noqa
+                    pass
+            if tree:
+                return {"__obj__": cls, "fields": fields}
+            return fields
+        if isinstance(leaf, Range):
+            return {"__range__": [conv(leaf.lo), conv(leaf.hi)]}
+        if isinstance(leaf, tuple):
+            return {"__tuple__": [conv(x, depth + 1, tree) for x in leaf]}
+        if isinstance(leaf, list):
+            return [conv(x, depth + 1, tree) for x in leaf]
+        if isinstance(leaf, dict):
+            return {str(k): conv(x, depth + 1, tree) for k, x in leaf.items() if isinstance(k, (str, int))}
+        if isinstance(leaf, (int, str, bool, float)) or leaf is None:
             return leaf
-        return repr(leaf)
+        from fractions import Fraction
+        if isinstance(leaf, Fraction):
+            return {"num": leaf.numerator, "den": leaf.denominator}
+        return None
 
     for name, leaf in (leaves or {}).items():
         try:
-            out[name] = conv(name, leaf)
+            if name == "__args__":
+                out[name] = {k: conv(v, 0, True) for k, v in leaf.items()
+                             if k not in ("__memo__", "__closure_parent__")}
+            elif name == "__singletons__":
+                out[name] = {k: conv(v, 0, True) for k, v in leaf.items()}
+            elif name.startswith("__"):
+                out[name] = leaf
+            else:
+                out[name] = conv(leaf)
         except Exception as e:      # noqa
             out[name] = "<%s>" % e
     return out
